@@ -148,6 +148,14 @@ func (e *E1) Run() map[string]interface{} {
 		})
 		perScn = append(perScn[:60], map[string]interface{}{"more": len(perScn) - 60})
 	}
+	if len(samples) == 0 {
+		for _, s := range e.Scenarios {
+			samples = append(samples, map[string]interface{}{"scenario": s.Name})
+			if len(samples) >= 3 {
+				break
+			}
+		}
+	}
 	if total.Executions == 0 {
 		e.Rep.Infra = "no executions"
 		return nil
